@@ -689,13 +689,10 @@ def _same_vals(a, b):
 def _table_preconditions(g, owners, holes_model, stale_groups, obs_name):
     """Configurations in which the table view is known to go wrong whatever the values
     (one collapsed witness each, so that the generic witnesses stay free for anything else):
-    D8 a group of this name was removed from some hole since the file was opened (live only);
     D9 the holes keep this group on different depth labels (DEPTH / DEPTH(1)), or a hole that
        does not have the group carries a data set named like its depth label;
     D5 a hole that has the group also carries, in ANOTHER of its groups, a data set named like
        one of the table's columns."""
-    if obs_name == "live" and g in stale_groups:
-        return "a-group-of-this-name-was-removed-since-opening"
     labels = set()
     for h in owners:
         labels |= set(holes_model[h]["groups"][g]["assoc"])
@@ -729,10 +726,7 @@ def table_check(dg, holes_model, obs_name, stale_groups=()):
         except Exception:  # pylint: disable=broad-except
             n_rows = 0
         if n_rows:
-            if obs_name == "live" and g in stale_groups:
-                out.append((C, f"{obs_name}:table-wrong:a-group-of-this-name-was-removed-since-opening", {"group": str(g), "rows": n_rows}))
-            else:
-                out.append((C, f"{obs_name}:table-lists-rows-of-a-group-no-hole-has", {"group": str(g), "rows": n_rows}))
+            out.append((C, f"{obs_name}:table-lists-rows-of-a-group-no-hole-has", {"group": str(g), "rows": n_rows}))
     for g in names:
         owners = [h for h in holes_model if g in holes_model[h]["groups"]]
         found = _table_one(tables, g, owners, holes_model, obs_name, stats)
